@@ -720,6 +720,27 @@ def explain_errors(sc, o, order):
     return unexplained
 
 
+def explain_deadlock(sc, o, order, flat):
+    """A kernel's retry() waits until some variable it read changes.  The wait is not a concurrency defect when the same
+    transaction also answers `retry` in the one-at-a-time execution (it was handed arguments that are invalid in that
+    state, e.g. an edge removed by a committed collapse): every finished transaction must agree with the sequential run
+    in commit order, and every unfinished thread's next transaction must answer `retry` after it.  None = explained."""
+    blocked = [(t, len(txs)) for t, txs in enumerate(o["results"]) if len(txs) < len(sc.threads[t])]
+    if not blocked:
+        return "no unfinished transaction found"
+    if sorted(tk for tk, r in flat.items() if committed_result(r)) != sorted(order) or any(r in ("tx panic", "panic") for r in flat.values()):
+        return "results and commit order disagree"
+    res, _, _ = parse_seq(sc, order, run_impl(seq_script(sc, order)))
+    if res != [flat[tk] for tk in order]:
+        return f"the finished transactions do not agree with the sequential run in commit order {order}: {res}"
+    for t, k in blocked:
+        cand = order + [(t, k)]
+        res, _, _ = parse_seq(sc, cand, run_impl(seq_script(sc, cand)))
+        if res[-1] not in ("tx retry", "retry"):
+            return f"thread {t} transaction {k} blocks although it answers {res[-1]!r} when run after the committed transactions {order}"
+    return None
+
+
 def oracle(case, li):
     """li = hcimpl transcript of the sequential script in the observed commit order"""
     sc, o = case.meta["scenario"], case.meta["outcome"]
@@ -728,9 +749,15 @@ def oracle(case, li):
         STATS["calls_with_several_commits"] = STATS.get("calls_with_several_commits", 0) + 1
     if any(x.startswith("<missing") for x in li):
         return "driver died on the sequential script"
+    flat = {(t, k): r for t, txs in enumerate(o["results"]) for k, r in enumerate(txs)}
+    if o["status"] == "deadlock":
+        why = explain_deadlock(sc, o, order, flat)
+        if why is None:
+            STATS["deadlocks_reproduced_sequentially"] = STATS.get("deadlocks_reproduced_sequentially", 0) + 1
+            return None
+        return "deadlock: every unfinished thread waits in a blocking retry; " + why
     if o["status"] != "ok":
         return f"{o['status']}: the schedule ends in {o['status']}"
-    flat = {(t, k): r for t, txs in enumerate(o["results"]) for k, r in enumerate(txs)}
     if any(r in ("tx panic", "panic") for r in flat.values()):
         return "panic: a transaction panicked: " + ", ".join(f"thread {t} tx {k}" for (t, k), r in flat.items() if r in ("tx panic", "panic"))
     okset = sorted(tk for tk, r in flat.items() if committed_result(r))
@@ -985,6 +1012,7 @@ def check_scenarios(binary, scs, jobs=4):
     st["unexplained_errors"] = STATS.get("unexplained_errors", 0)
     st["unexplained_error_examples"] = STATS.get("unexplained_error_examples", [])
     st["calls_with_several_commits"] = STATS.get("calls_with_several_commits", 0)
+    st["deadlocks_reproduced_sequentially"] = STATS.get("deadlocks_reproduced_sequentially", 0)
     samples = []
     for s in scs[:400]:
         r = res[s.name]
@@ -1032,7 +1060,7 @@ def run(tier, seed):
                                 "replay": {"theorem_or_correspondence": "coverage of the schedule exploration"}})
     res = hv.merge_results([("schedule exploration: every distinct outcome vs sequential runs (hcimpl) and the model (hcmodel)", r)])
     for k in ("sched", "serializable_in_commit_order", "serializable_in_other_order_only", "error_results", "unexplained_errors",
-              "unexplained_error_examples", "vendor_marked_lines"):
+              "unexplained_error_examples", "vendor_marked_lines", "calls_with_several_commits", "deadlocks_reproduced_sequentially"):
         res["stats"][k] = r["stats"][k]
     res["stats"]["exhaustive"] = False
     res["notes"].append(
